@@ -43,7 +43,7 @@ package markers
 //@           invariant m.msg == msg(err)
 
 //@ func Is
-//@   props C08 C02 C07 C13 C14
+//@   props C08 C02 C07 C13 C14 C10
 //@   ensures result == isSpec(err, reference)
 //@   loop 1: invariant reference != nil && (isA(err, reference) <==> isA(c, reference))
 //@   loop 2: invariant forall j int :: 0 <= j && j < $n ==> !isSpec(causes(c)[j], reference)
@@ -75,7 +75,7 @@ package markers
 //@ spec func hereDirect(c error, r error) bool = (comparable(typeof(r)) && c == r) || isM2(c, r)
 
 //@ func IsAny
-//@   props C08 C13
+//@   props C08 C13 C10
 //@   reveal isAnySpec
 //@   ensures result == isAnySpec(err, references)
 //@   loop 1: invariant forall j int :: 0 <= j && j < $n ==> references[j] != nil
